@@ -1314,5 +1314,28 @@ example :
     (parseCmd [s2b "ZRANGE", s2b "z", s2b "0", s2b "-1", s2b "WITHSCORES"]).isOk = true ∧
     parseLua [s2b "ZRANGE", s2b "z", s2b "0", s2b "-1", s2b "WITHSCORES"] = .error (.arity (req "ZRANGE" 3)) := by decide
 
+
+/-! ## 10. Lua-side values the conversion meets besides replies -/
+
+/-- a function / thread / userdata is answered as a nil bulk and — unlike `nil` — does not end an array -/
+theorem lua_other_is_nil_bulk_and_no_cut (xs : List LuaVal) :
+    luaToResp .other = .bulk none ∧ luaToRespL (.other :: xs) = .bulk none :: luaToRespL xs := by
+  simp [luaToResp, luaToRespL]
+
+/-- a string argument of redis.call reaches the command byte for byte -/
+theorem lua_arg_string_byte_exact (b : Bytes) : luaArgBytes (.str b) = some b := rfl
+
+/-- exactly strings, integers and floats are accepted as arguments -/
+theorem lua_arg_refused_iff (v : LuaVal) :
+    luaArgBytes v = none ↔ (match v with | .str _ => False | .int _ => False | .num _ => False | _ => True) := by
+  cases v <;> simp [luaArgBytes]
+
+/-- an integer argument arrives as digits the RESP grammar reads back as the same integer (at the
+    extremes; the general statement needs `Int.repr` lemmas and is exercised, not proved) -/
+theorem lua_arg_integer_extremes :
+    parseI64 (intText 9223372036854775807) = some 9223372036854775807 ∧
+    parseI64 (intText (-9223372036854775808)) = some (-9223372036854775808) ∧
+    parseI64 (intText 0) = some 0 ∧ parseI64 (intText (-1)) = some (-1) := by decide +kernel
+
 end C16
 end RedisVerif
